@@ -30,10 +30,12 @@ BASELINE = "cd /repo && /venv/bin/python -m pytest -ra -q -p no:cacheprovider --
 def main():
     props = [json.loads(l) for l in open(os.path.join(HERE, "properties.jsonl"))]
     checks, na = [], []
+    # only properties whose check the lead has reviewed and run clean are claimed
+    ready = set(open(os.path.join(HERE, "tools", "ready.txt")).read().split())
     for p in props:
         pid = p["id"]
         modpath = os.path.join(HERE, "sqlastatic", "rules", pid.lower() + ".py")
-        if os.path.exists(modpath):
+        if os.path.exists(modpath) and pid in ready:
             reg = importlib.import_module(f"sqlastatic.rules.{pid.lower()}").R
             templates = sorted({t for r in reg.rules for t in r.template.replace(",", "/").split("/") if t})
             checks.append({
